@@ -52,9 +52,10 @@ def value_param(name, the_dop, byte_position=None, bit_position=None, default=No
     return p
 
 
-def coded_const(name, value, byte_position=None, bits=8, semantic=None, dt=DataType.A_UINT32, bit_position=None):
+def coded_const(name, value, byte_position=None, bits=8, semantic=None, dt=DataType.A_UINT32, bit_position=None,
+                hl=None):
     return CodedConstParameter(oid=None, short_name=name, long_name=None, description=None, semantic=semantic,
-                               diag_coded_type=std_type(bits, dt), coded_value=value, byte_position=byte_position,
+                               diag_coded_type=std_type(bits, dt, hl=hl), coded_value=value, byte_position=byte_position,
                                bit_position=bit_position, sdgs=[])
 
 
